@@ -116,6 +116,55 @@ pub fn products(ctx: &Ctx, rep: &mut Report) {
     rep.require("sizes", 11);
 }
 
+/// One thread walks through all sizes with the SAME low-degree coefficients embedded in
+/// different lengths (constants, the zero polynomial, short polynomials): any state kept between
+/// transforms (a cache, a scratch buffer) that confuses X^n+1 with X^m+1 shows up here.
+pub fn cross_size(ctx: &Ctx, rep: &mut Report) {
+    let mut rng = rng_for(ctx.seed, "c11-cross");
+    let rounds = ctx.sz(6, 200);
+    let sizes: Vec<usize> = (0..=10).map(|k| 1usize << k).collect();
+    for round in 0..rounds {
+        let deg = rng.gen_range(0..4usize);
+        let head: Vec<i64> = (0..=deg).map(|_| rng.gen_range(0..Q)).collect();
+        let head2: Vec<i64> = (0..=rng.gen_range(0..3usize)).map(|_| rng.gen_range(0..Q)).collect();
+        // ascending, descending and shuffled walks
+        let mut order = sizes.clone();
+        match round % 3 {
+            1 => order.reverse(),
+            2 => {
+                for k in (1..order.len()).rev() {
+                    let j = rng.gen_range(0..=k);
+                    order.swap(k, j);
+                }
+            }
+            _ => {}
+        }
+        for &n in &order {
+            let embed = |h: &Vec<i64>| {
+                let mut v = vec![0i64; n];
+                for (i, x) in h.iter().enumerate() {
+                    if i < n {
+                        v[i] = *x;
+                    }
+                }
+                v
+            };
+            let a = embed(&head);
+            let b = embed(&head2);
+            let mut one = vec![0i64; n];
+            one[0] = 1;
+            check_pair(&a, &one, "embedded head x 1", rep);
+            check_pair(&a, &b, "embedded head x embedded head", rep);
+            check_pair(&vec![0i64; n], &a, "zero x embedded head", rep);
+            check_pair(&one, &one, "1 x 1", rep);
+            rep.nontrivial(format!("cross|{}|{}", round, n).as_bytes());
+        }
+        rep.count("cross_size_walks", 1);
+    }
+    rep.sample(json!({"walks": rounds, "sizes": sizes, "inputs": "the same low-degree coefficients embedded in every length, in one thread"}));
+    rep.require("cross_size_walks", 3);
+}
+
 pub fn replay(r: &Value) -> bool {
     let mut rep = Report::new();
     match r["kind"].as_str().unwrap_or("") {
